@@ -541,7 +541,69 @@ def c08_17(ctx):
     return shared_obligations(ctx, ["hd", "blinding", "helper", "pecc"], "the result would depend on something other than the arguments and the object's current state")
 
 
+def c08_18(ctx):
+    """every extended key the library can serialise parses back to the same fields: HDPublicKey.raw_parse and HDPrivateKey.raw_parse are
+    evaluated on the 78 bytes of every combination of SLIP-132 version x depth {0, 1, 5, 255} x parent fingerprint {zero, non-zero} x child
+    number {0, 1, 2^31-1, 2^31, 2^32-1} (the parsers look at these fields only through comparisons with constants; key material parsing is
+    a stand-in).  Nothing of it may be refused, and depth, fingerprint, child number, chain code and version must come back exactly"""
+    from sa.cells import ClassRef, Evaluator, FileStandIn, Obj, Raised, Undecided
+    out = []
+    chain = bytes(range(32))
+    for clsname, kind in (("HDPublicKey", "pub"), ("HDPrivateKey", "prv")):
+        spec = "hd:%s.raw_parse" % clsname
+        mod, fn = rl.get(ctx, spec)
+        versions = [(fam, bytes.fromhex(h)) for fam in ("mainnet", "testnet") for h in SLIP132["%s_%s" % (fam, kind)]]
+        bad = None
+        n = 0
+
+        def init(o, **kw):
+            o.attrs.update(kw)
+        hooks = {(clsname, "__init__"): init, ("S256Point", "parse"): lambda cls, b, *a, **k: Obj("pecc", "S256Point", {"sec": b}),
+                 ("PrivateKey", "__init__"): lambda o, secret=None, *a, **k: o.attrs.update({"secret": secret, "point": Obj("pecc", "S256Point", {})})}
+        for fam, ver in versions:
+            for depth in (0, 1, 5, 255):
+                for fp in (bytes(4), b"\xab\xcd\x01\x02"):
+                    for child in (0, 1, 2 ** 31 - 1, 2 ** 31, 2 ** 32 - 1):
+                        n += 1
+                        key = (b"\x02" + b"\x11" * 32) if kind == "pub" else (b"\x00" + b"\x22" * 32)
+                        raw = ver + bytes([depth]) + fp + child.to_bytes(4, "big") + chain + key
+                        try:
+                            r = Evaluator(ctx.repo, method_hooks=hooks).call(spec, [FileStandIn(raw)], self_obj=ClassRef("hd", clsname))
+                        except Raised as x:
+                            bad = ("bad", "a serialised %s with version %s, depth %d, parent fingerprint %s, child number %d is refused (%s): it does not survive serialise / parse" % (
+                                clsname, ver.hex(), depth, fp.hex(), child, x.name))
+                            break
+                        except Undecided as u:
+                            bad = ("err", "parser not evaluable: %s" % u)
+                            break
+                        got = r.attrs if isinstance(r, Obj) else {}
+                        want = {"depth": depth, "parent_fingerprint": fp, "child_number": child, "chain_code": chain}
+                        diff = [k for k, v in want.items() if got.get(k) != v]
+                        vkey = "pub_version" if kind == "pub" else "priv_version"
+                        if got.get(vkey) != ver:
+                            diff.append(vkey)
+                        if diff:
+                            bad = ("bad", "version %s, depth %d, parent fingerprint %s, child number %d parses with a different %s (%r)" % (
+                                ver.hex(), depth, fp.hex(), child, diff[0], got.get(diff[0])))
+                            break
+                    if bad:
+                        break
+                if bad:
+                    break
+            if bad:
+                break
+        ctx.count("cells", n)
+        if bad is None:
+            out.append(ctx.ok(spec, "all %d (version, depth, fingerprint, child number) cells parse back to the fields that were serialised" % n, fn, mod, key="xkey-fields:" + kind))
+        elif bad[0] == "err":
+            out.append(ctx.err(spec, bad[1], fn, mod))
+        else:
+            out.append(ctx.bad(spec, bad[1], fn, mod, key="xkey-fields:" + kind))
+    return out
+
+
 OBLIGATIONS = [
+    ("C08.18", "CELLS xkey fields", c08_18),
     ("C08.17", "SHARED", c08_17),
     ("C08.16", "SET-ORDER", c08_16),
     ("C08.15", "NOTATION", c08_15),
